@@ -690,7 +690,7 @@ class Exec:
                     return f_and(parts)
                 return b_or(*[p for p in parts]) if parts else False
             if nm == 'forall':
-                return FForall(n, body, ast.unparse(e)[:80])
+                return FForall(n, body, ast.unparse(e)[:80], [(bounds[2 * k], bounds[2 * k + 1]) for k in range(n)])
             wit = [self.ev(k.value, st, fr) for k in e.keywords if k.arg == 'witness']
 
             def ebody(c, lam=lam, bounds=bounds):
@@ -715,16 +715,19 @@ class Exec:
             finally:
                 fr.spec_only = old_spec
             T = Z(T)
-            canon = z3.Int('K!canon')
-            cT = z3.substitute(T, (K, canon))
+            # captured variables: every free constant of the summand except the index (explicit arguments of the
+            # sum function, so that substitution under an enclosing binder reaches them)
+            caps = smt.free_consts(T, exclude=K)
+            canon = [z3.Int('K!canon')] + [z3.Const('cap!%d' % n, c.sort()) for n, c in enumerate(caps)]
+            cT = z3.substitute(T, (K, canon[0]), *[(c, canon[n + 1]) for n, c in enumerate(caps)])
             key = cT.get_id()
             self.ctx.registry.keep.append(cT)
             real = T.sort() == REAL
 
-            def term(k, T=T, K=K):
-                return z3.substitute(T, (K, k))
-            sf = self.ctx.registry.sum_fun(key, [], term, real)
-            return sf.decl(ZI(lo), ZI(hi))
+            def term(k, *cv, cT=cT, canon=canon):
+                return z3.substitute(cT, (canon[0], k), *[(canon[n + 1], v) for n, v in enumerate(cv)])
+            sf = self.ctx.registry.sum_fun(key, [c.sort() for c in caps], term, real)
+            return sf.decl(ZI(lo), ZI(hi), *caps)
         raise OutOfReach('spec construct ' + nm)
 
     def spec_call(self, name, args, st, fr):
